@@ -670,6 +670,35 @@ func c14Path(r *core.Run, p *core.Program) {
 	}
 	r.Check(bad == "" && len(calls) >= 3, rule, "child-index-unmasked", p.Pos(mw.Pos()), fmt.Sprintf("%d derivation calls: no index passes through a mask clearing the hardened bit", len(calls)),
 		"the child index at "+bad+" is computed through the mask 0x7fffffff: a hardened path element is derived as a non-hardened child")
+	// path element + counter: the index expression contains no operator other than addition ("|" or "^"
+	// give the same index only while the element's low bits are zero, i.e. for .../0 and .../0')
+	var badOps []string
+	for _, c := range calls {
+		seen := map[ssa.Value]bool{}
+		var walk func(v ssa.Value)
+		walk = func(v ssa.Value) {
+			if seen[v] {
+				return
+			}
+			seen[v] = true
+			switch x := v.(type) {
+			case *ssa.BinOp:
+				if x.Op != token.ADD {
+					badOps = append(badOps, "the child index at "+p.Pos(an.InstrPos(c.(ssa.Instruction)))+" is computed with the operator "+x.Op.String()+" ("+clip(an.Expr(c.Common().Args[1]), 80)+")")
+					return
+				}
+				walk(x.X)
+				walk(x.Y)
+			case *ssa.Convert:
+				walk(x.X)
+			case *ssa.ChangeType:
+				walk(x.X)
+			}
+		}
+		walk(c.Common().Args[1])
+	}
+	sort.Strings(badOps)
+	r.Check(len(badOps) == 0 && len(calls) >= 3, rule, "child-index-is-element-plus-counter", p.Pos(mw.Pos()), fmt.Sprintf("%d derivation calls: the index is a path element, or a path element plus a counter", len(calls)), strings.Join(badOps, "; "))
 	// the hardened marker: 0x80000000 is OR-ed in under the "'" suffix test
 	okH := false
 	for _, b := range mw.Blocks {
